@@ -308,10 +308,14 @@ void XMLGrammarPoolImpl::deserializeGrammars(BinInputStream* const binIn)
         //
         if (StorerLevel != (unsigned int)XERCES_GRAMMAR_SERIALIZATION_LEVEL)
         {
-            XMLCh     StorerLevelChar[5];
-            XMLCh     LoaderLevelChar[5];
-            XMLString::binToText(StorerLevel,                          StorerLevelChar,   4, 10, memMgr);
-            XMLString::binToText(XERCES_GRAMMAR_SERIALIZATION_LEVEL,   LoaderLevelChar,   4, 10, memMgr);
+            // room for every 32-bit level: a stamp of five or more digits (a
+            // stream of the other byte order) must still end in the
+            // XSerializationException below, not in binToText's
+            // IllegalArgumentException
+            XMLCh     StorerLevelChar[11];
+            XMLCh     LoaderLevelChar[11];
+            XMLString::binToText(StorerLevel,                          StorerLevelChar,   10, 10, memMgr);
+            XMLString::binToText(XERCES_GRAMMAR_SERIALIZATION_LEVEL,   LoaderLevelChar,   10, 10, memMgr);
 
             ThrowXMLwithMemMgr2(XSerializationException
                     , XMLExcepts::XSer_Storer_Loader_Mismatch
